@@ -1,3 +1,3 @@
 SPECIFICATION Spec
-INVARIANTS MergedRootFilesProtected BoltFilesOnDisk RootFilesOnDisk CopyFilesOnDisk NoOrphansWhenQuiescent NothingIneligibleWhenQuiescent RetentionWhenQuiescent NewestIsRoot NoOpenFilesAfterClose
+INVARIANTS PurgeRemovesOnlyUnneeded MergedRootFilesProtected BoltFilesOnDisk RootFilesOnDisk CopyFilesOnDisk NoOrphansWhenQuiescent NothingIneligibleWhenQuiescent RetentionWhenQuiescent NewestIsRoot NoOpenFilesAfterClose
 CHECK_DEADLOCK FALSE
